@@ -19,7 +19,12 @@ in-place mutations of tensors (requires_grad_ flip, writes through .data and thr
 writes, attribute replacement by another kind, append / pop / setitem / delete, changes inside a nested object}
 up to depth 3 (quick) / 4 (thorough): every load (after every save in the quick tier) must equal the object as
 it was at the save that wrote the target, and earlier targets must still load to what the object was then. A WIDTH family
-stores containers of 9..101 elements (slot names of 1, 2 and 3 digits).
+stores containers of 9..101 elements (slot names of 1, 2 and 3 digits). A LAYOUT family stores tensors and arrays of every
+memory layout (partial / strided / scalar / transposed / expanded / narrowed / empty views, non-leaf views, Fortran order,
+negative strides, read-only, broadcast) x requires_grad x dtype as direct attribute, inside list / tuple / dict and inside a
+nested object. A KEY-SPELLING family uses dict keys and attribute names with dots (also one key being a prefix of another up
+to a dot), spaces, unicode, digits only, the empty string, look-alikes of the serializer's suffixes, punctuation, 200
+characters, with values of every kind that needs a side flag or a node, so that a flag attached to the wrong key shows.
 
 Excluded from the input alphabet exactly as the quantifier says: reserved metadata names, names
 containing '/' (and what zarr treats as path syntax: '\\', '.', '..'), non-native byte order and
@@ -152,8 +157,8 @@ def eval_graph(item, seed=0, scratch="/tmp"):
     t.extra["graphs"] += 1
     t.extra["graphs_" + item["fam"]] += 1
     for cls, msg in fails:
-        t.fail(cls, {"kind": "graph", "fam": item["fam"], "graph": desc, "seed": seed}, msg)
-    if item["fam"] in ("pair_of_dispatch_classes", "object_nesting", "container_nesting"):
+        t.fail(dict(cls, **item.get("tag", {})), {"kind": "graph", "fam": item["fam"], "graph": desc, "seed": seed, "tag": item.get("tag", {})}, msg)
+    if item["fam"] in ("pair_of_dispatch_classes", "object_nesting", "container_nesting", "layout", "key_spelling"):
         t.sample({"family": item["fam"], "graph": S.show(desc), "stores": list(STORES), "relations": ["load_save_equals_input", "zip_equals_dir", "fixed_point"], "observed": "equal" if not fails else f"{len(fails)} failure(s)"}, cap=1)
     return t
 
@@ -590,6 +595,9 @@ def run(ctx):
         covered |= S.dispatch_classes(it["g"])
     need = set(S.REPS) | set(S.KINDS)
     ctx.coverage.update(
+        layouts={"tensor": S.TENSOR_LAYOUTS, "tensor_dtypes": S.TENSOR_LAYOUT_DTYPES, "ndarray": S.ARRAY_LAYOUTS, "ndarray_dtypes": S.ARRAY_LAYOUT_DTYPES,
+                 "positions": ["attribute", "list", "tuple", "dict", "nested_object"]},
+        key_spellings={"key_sets": [[c, [k if len(k) <= 40 else k[:8] + f"...<{len(k)} chars>" for k in ks]] for c, ks in S.KEY_SETS], "value_kinds": S.KEY_VALUE_KINDS if not ctx.quick else ["path", "tensor", "tuple"]},
         alphabet={
             "leaves": len(S.LEAVES),
             "leaf_dispatch_classes": sorted({lf.cls for lf in S.LEAVES.values()}),
@@ -649,7 +657,7 @@ def replay(ctx, case):
         print(f"  input : {str(S.summary(S.build(desc, seed)))[:400]}")
         fails, outcome, _, _ = run_graph(desc, seed, ctx.scratch)
         for cls, msg in fails:
-            ctx.fail(cls, case, msg)
+            ctx.fail(dict(cls, **case.get("tag", {})), case, msg)
         for store in STORES:
             print(f"  store={store}: loaded = {str(outcome.get(store))[:400]}")
         print(f"  expected: the three relations hold in both stores; observed: {len(fails)} failure(s)")
